@@ -257,10 +257,22 @@ def run(ctx):
     import time
     t0 = time.time()
     timings = {}
+    from vplib.common import ensure_coq_makefile
     ok = ctx.coq_props()
+    if not ok and "No rule to make target" in str(ctx.cov.get("coq_error", "")):
+        # another process removed/renamed a .v file between `coq_makefile` and `make` (shared tree): regenerate and retry once
+        ensure_coq_makefile(force=True)
+        ok = ctx.coq_props()
     timings["coq_build_and_audit_s"] = round(time.time() - t0, 1)
     qf = ctx.harness("qv_format")
+    nviol = len(ctx.violations)
     drv = ctx.driver("format")
+    if not drv:
+        # same transient (stale Makefile dependencies of the shared Coq tree): regenerate and retry once
+        ensure_coq_makefile(force=True)
+        drv = ctx.driver("format")
+        if drv:
+            del ctx.violations[nviol:]
     if not qf:
         return
     e2e = E2E(ctx, qf)
